@@ -2,58 +2,58 @@
 """Generates MANIFEST.json from the table below (single source of truth for the registered checks)."""
 import json, subprocess
 CHECKS = {
- "C01": dict(technique="runtime monitoring: stream oracle with unique PRF content over generated route lists/handler chains/segmentations on the real App; poison-on-release hook; race detector in the thorough tier",
+ "C01": dict(technique="runtime monitoring: stream oracle with unique PRF content over generated route lists/handler chains/segmentations on the real App; poison-on-release hook; race detector in the thorough tier; TLS <= 1.2 clients whose last record and close_notify leave in one segment; PROXY UNKNOWN prologue",
              text="Held on every generated execution: each consumer's bytes were compared with the exact slice of the client's stream; exploration of configurations x streams x segmentations, not a proof.",
              note="Trusts the scripted transport (vnet) to behave like TCP for Read/deadline/half-close; only shipped wrapping handlers are composed.", ref="3/C01"),
  "C02": dict(technique="runtime monitoring: trace checker (rules R1-R6 over recorded matcher/handler/fallback events) with exhaustive small-scope enumeration of route lists x streams x segmentations plus seeded random larger instances",
              text="Exhaustive within the stated bounded scope (every route list over the alphabets, every stream over {a,b} up to length 4, every composition) and sampled beyond it; each execution's event trace is judged by rules derived from the statement with order-insensitive matcher-set evaluation.",
              note="Scripted matchers are N-monotone pure predicates; arrival schedule is one segment per prefetch round; timeouts are out of scope here (C05).", ref="3/C02"),
- "C04": dict(technique="runtime monitoring: crash monitor (recover + child-process fatal attribution via input journal) and per-call allocation monitor (MemStats.TotalAlloc delta) over random, all-prefix and boundary-aware mutated inputs for every matcher configuration and parsing handler; RLIMIT_AS sanitizer",
+ "C04": dict(technique="runtime monitoring: crash monitor (recover + child-process fatal attribution via input journal) and per-call allocation monitor (MemStats.TotalAlloc delta) over random, all-prefix and boundary-aware mutated inputs for every matcher configuration and parsing handler; RLIMIT_AS sanitizer; every matcher is evaluated twice in a row on one connection",
              text="Held on every generated input: no panic/fatal, allocation per call stayed under 256 KiB (observed maxima are in the evidence). Sampling of an unbounded input space, biased to length/terminator boundary values.",
              note="tls handler parsing (crypto/tls) not driven; quic sampled thinly; single 32-bit magic values outside the boundary set can be missed.", ref="3/C04"),
- "C06": dict(technique="runtime monitoring: verdict-lattice checker over every prefix of generated streams (purity P1-P3 on counting connections, N-monotonicity P4, fragment-safety P5)",
+ "C06": dict(technique="runtime monitoring: verdict-lattice checker over every prefix of generated streams (purity P1-P3 on counting connections, N-monotonicity P4, fragment-safety P5); P6 history law (re-evaluation after other connections); route-level whole-vs-fragments comparison with the shipped matchers behind a proxy_protocol route",
              text="For every generated stream and every prefix length the real matcher was evaluated on fresh preloaded connections; the five lattice rules were checked on all of them. One genuine fragmentation defect (winbox multi-chunk) is listed as a known finding; the http one was repaired.",
              note="Seeds are hand-written well-formed messages per matcher plus boundary mutations; time-dependent filters are pinned.", ref="3/C06"),
- "C05": dict(technique="runtime monitoring: timed-history checker over scripted silent/trickle/flood clients (TCP and UDP) with one-sided never-early bound, scheduler-canary-guarded upper bound, byte-count cap and fails-closed trace check",
+ "C05": dict(technique="runtime monitoring: timed-history checker over scripted silent/trickle/flood clients (TCP and UDP) with one-sided never-early bound, scheduler-canary-guarded upper bound, byte-count cap and fails-closed trace check; silent UDP client behind a matched non-terminal route, ramp client, handler-less last routes",
              text="Held on every timed run: lower bound is sound against observer delay, upper bound is evaluated only under a quiet scheduler canary; covers timeouts 150 ms-2.5 s, four wall-clock phases, subroute/http/wrapper variants.",
              note="UDP association end is observed from above only (matcher evaluation history); scripted transport stands in for kernel sockets.", ref="3/C05"),
- "C07": dict(technique="runtime monitoring: differential monitor - hellos emitted by crypto/tls clients (and length-consistent mutations) are fed to a real crypto/tls server (reference ClientHelloInfo) and to MatchTLS with a capturing handshake sub-matcher; fields, placeholders, sni/alpn verdicts and all-prefix need-more are compared",
+ "C07": dict(technique="runtime monitoring: differential monitor - hellos emitted by crypto/tls clients (and length-consistent mutations) are fed to a real crypto/tls server (reference ClientHelloInfo) and to MatchTLS with a capturing handshake sub-matcher; fields, placeholders, sni/alpn verdicts and all-prefix need-more are compared; nested sessions (tls matcher, tls handler, tls matchers on the decrypted stream)",
              text="Agreement with go1.23.5 crypto/tls on every generated hello and mutation that the reference server accepts; the multi-record reassembly defect it found was repaired.",
              note="Clients other than crypto/tls are represented only by mutations; one standard library version.", ref="3/C07"),
- "C14": dict(technique="runtime monitoring: reference-model monitor - per-protocol generators (valid / single-field corruptions / filter configurations) judged by independent reference predicates written from the wire definitions; disagreements are violations, ambiguous classes abstain",
+ "C14": dict(technique="runtime monitoring: reference-model monitor - per-protocol generators (valid / single-field corruptions / filter configurations) judged by independent reference predicates written from the wire definitions; disagreements are violations, ambiguous classes abstain; companion law (another matcher of the same kind evaluates the connection first); HPACK dynamic-table variants",
              text="Real matcher verdict equalled the reference on every judged case for 17 matcher modules; abstentions are counted in the evidence. Consistency with my reading of the definitions, not a proof.",
              note="References are hand-written; OpenVPN ts-now classes use the wall clock within +-10 s of generation (abstain 12-18 s).", ref="3/C14"),
- "C15": dict(technique="runtime monitoring: generative differential monitor over the real Caddyfile adapter and loader (expected JSON printed independently from the documented field names; determinism; caddy.Validate; struct round trip)",
+ "C15": dict(technique="runtime monitoring: generative differential monitor over the real Caddyfile adapter and loader (expected JSON printed independently from the documented field names; determinism; caddy.Validate; struct round trip); invalid Caddyfiles adapted between valid ones (clean failure, no effect on the next adaptation)",
              text="Every generated Caddyfile adapted to the expected JSON, deterministically, validated and round-tripped, except the listed public_key_algorithm finding.",
              note="Expected-JSON printer is hand-written from struct tags/docs; tls_client_auth automate names skip provisioning (needs ACME).", ref="3/C15"),
- "C16": dict(technique="runtime monitoring: scripted SOCKS5 sessions against the real handler with an RFC 1928/1929 reply oracle, a target accept log, and a syscall monitor (strace brackets per session: no connect/bind/listen for must-refuse sessions)",
+ "C16": dict(technique="runtime monitoring: scripted SOCKS5 sessions against the real handler with an RFC 1928/1929 reply oracle, a target accept log, and a syscall monitor (strace brackets per session: no connect/bind/listen for must-refuse sessions); reload jobs (same configuration text re-provisioned after the password behind a placeholder was rotated, old handler alive)",
              text="Every must-refuse session was refused with no connect to the target and no bind/listen in its strace bracket; every permitted CONNECT was seen in the trace (proves the observer sees what it must).",
              note="Resolver lookups for refused FQDN requests are observed, not judged; falls back to reply+accept-log monitors if strace is unavailable.", ref="3/C16"),
- "C18": dict(technique="runtime monitoring: round-trip law checker (parse-serialise identity both ways, wrong-length rejection, panic monitor) over 21 exported codecs with enumerated lengths and boundary field values",
+ "C18": dict(technique="runtime monitoring: round-trip law checker (parse-serialise identity both ways, wrong-length rejection, panic monitor) over 21 exported codecs with enumerated lengths and boundary field values; L4 no aliasing of serialiser output, L5 parse into a used receiver, L7 parsed message stable while other inputs are parsed, OpenVPN wrapped-key crypto round trip",
              text="Laws L1-L3 held on every generated input for all codecs except the listed OpenVPN WrappedKey metadata finding; the rdp/wireguard/winbox wrong-length and username defects it found were repaired.",
              note="Size bounds are taken from the wire layouts / module constants; plaintext sub-codecs are driven only on states reachable through FromBytes.", ref="3/C18"),
- "C03": dict(technique="runtime monitoring: duplex stream oracle over real loopback sockets (tcp/unix/tls upstreams, optional TLS termination) with scripted close orders, EOF-ordering checks, handler-return watchdog, goroutine and fd census; race detector in the thorough tier",
+ "C03": dict(technique="runtime monitoring: duplex stream oracle over real loopback sockets (tcp/unix/tls upstreams, optional TLS termination) with scripted close orders, EOF-ordering checks, handler-return watchdog, goroutine and fd census; race detector in the thorough tier; dial-failure sessions with the garbage collector off (leaked sockets cannot be finalised), peers that reset on accept, strict descriptor count; quick-tier race child",
              text="Held on every scripted session: both directions byte-exact, half-close observed while the opposite direction kept flowing, handler returned, upstream connections closed, no goroutine or fd left.",
              note="Abrupt orders assert prefix integrity and cleanup only; kernel coalescing makes chunking best effort.", ref="3/C03"),
- "C08": dict(technique="runtime monitoring: Go race detector (-race build, GOMAXPROCS 2/16) over a stress workload of overlapping connections through shared matchers/handlers/selection policies/buffer pool, plus per-connection stream and routing oracles, poison-on-release hook and a hook-free GOMAXPROCS=1 run",
+ "C08": dict(technique="runtime monitoring: Go race detector (-race build, GOMAXPROCS 2/16) over a stress workload of overlapping connections through shared matchers/handlers/selection policies/buffer pool, plus per-connection stream and routing oracles, poison-on-release hook and a hook-free GOMAXPROCS=1 run; classes with a two-peer upstream, a placeholder dial address, a subroute fall-through and TLS termination towards TLS upstreams (customised and default client settings, real handshakes)",
              text="No race report attributed to repository code, no foreign or poisoned byte at any consumer, every connection took its class's route, on all executions observed (counts and max overlap in the evidence).",
              note="The race detector only sees executed access pairs; schedules are sampled, not enumerated.", ref="3/C08"),
- "C09": dict(technique="runtime monitoring: UDP history checker over a scripted packet conn and real UDP socket storms (per-association own-subsequence order, at-most-once delivery, reply address, survival probe, fresh-association probe), child-process crash attribution, yield points in the server loop; race detector in the thorough tier",
+ "C09": dict(technique="runtime monitoring: UDP history checker over a scripted packet conn and real UDP socket storms (per-association own-subsequence order, at-most-once delivery, reply address, survival probe, fresh-association probe), child-process crash attribution, yield points in the server loop; race detector in the thorough tier; pileup scenario, zone-only distinct clients, datagrams exactly as large as the read buffer, spurious end-of-stream rule",
              text="Held on every scenario: no foreign/duplicated/reordered datagram, replies to the owner, loop alive after every storm, a fresh association after an ended one; the loop-crash defects were repaired.",
              note="Datagram loss at teardown is allowed; 30 s idle expiry only in the thorough tier.", ref="3/C09"),
- "C10": dict(technique="runtime monitoring: contract checker over exhaustively enumerated pool states (availability vectors {ok,unhealthy,failed,full}^n, n<=6/8) for all six policies, and porcupine linearizability checking of concurrent round_robin histories",
+ "C10": dict(technique="runtime monitoring: contract checker over exhaustively enumerated pool states (availability vectors {ok,unhealthy,failed,full}^n, n<=6/8) for all six policies, and porcupine linearizability checking of concurrent round_robin histories; pools provisioned from JSON (limits as Provision derives them); exact count oracle over tight concurrent loops; history sequences for the deterministic policies",
              text="Exhaustive over the bounded pool-state space for the sequential contract; sampled concurrent histories all linearizable against the sequential round-robin model.",
              note="Pool state is built through the verif-tagged export; ip_hash hash==0 corner (2^-32) out of reach.", ref="3/C10"),
- "C13": dict(technique="runtime monitoring: exactly-once and stream oracle at the wrapped listener's Accept with scripted consumer pacing and close instants, poison-on-release hook, yield points at the hand-off, goroutine census; GOMAXPROCS=1 and race children",
+ "C13": dict(technique="runtime monitoring: exactly-once and stream oracle at the wrapped listener's Accept with scripted consumer pacing and close instants, poison-on-release hook, yield points at the hand-off, goroutine census; GOMAXPROCS=1 and race children; deadline-left-armed rule from the scripted connection's call log; no-read route lists; subroute fall-through class",
              text="Held on every run: fall-through connections delivered exactly once and intact (incl. after take/proxy_protocol/tls), consumed/rejected ones never delivered and closed, pending ones delivered xor closed at shutdown, no goroutine left.",
              note="Connections still in the scripted listener's backlog at close were never accepted by layer4 and are excluded.", ref="3/C13"),
- "C11": dict(technique="runtime monitoring: interval-logic checker over timed histories against real loopback upstreams that the script opens/closes (passive failure windows, retry cadence/duration/last error via a logging selection policy, active checks, connection limits with held connections), counters read through the verif export; canary-guarded two-sided bounds",
+ "C11": dict(technique="runtime monitoring: interval-logic checker over timed histories against real loopback upstreams that the script opens/closes (passive failure windows, retry cadence/duration/last error via a logging selection policy, active checks, connection limits with held connections), counters read through the verif export; canary-guarded two-sided bounds; established connection held across outage/recovery, defaults left out of the configuration, overlapping slow failures (TLS upstream hanging up on dials made together)",
              text="Held on every generated history; one-sided assertions are sound against observer delay, two-sided ones are only evaluated under a quiet scheduler canary and with margins >= D/3.",
              note="Durations are sub-second to ~1.2 s; simultaneous opens racing between selection and counting are not asserted.", ref="3/C11"),
- "C12": dict(technique="runtime monitoring: stream oracle + independent PROXY v1/v2 codec: received headers (all families, boundary addresses, split at every offset, large prefetch) must be stripped exactly and honoured by RemoteAddr/LocalAddr, placeholders and ip matchers; headers sent by the proxy handler are parsed by an independent parser and must carry the effective addresses followed by the exact stream",
+ "C12": dict(technique="runtime monitoring: stream oracle + independent PROXY v1/v2 codec: received headers (all families, boundary addresses, split at every offset, large prefetch) must be stripped exactly and honoured by RemoteAddr/LocalAddr, placeholders and ip matchers; headers sent by the proxy handler are parsed by an independent parser and must carry the effective addresses followed by the exact stream; flat route layout behind the proxy_protocol route; silent-client sender cases",
              text="Held on every generated receiver, sender and receiver->sender case; headers the library refuses (TLVs) are only checked for failing closed.",
              note="Unix-family addresses on the sender side only; scripted transport for clients, real TCP for the upstream.", ref="3/C12"),
- "C17": dict(technique="runtime monitoring: one-sided rate-bound checker on timestamped cumulative reads of the scripted client connection (per connection and merged for the total limiter), latency lower bound, stream-prefix oracle",
+ "C17": dict(technique="runtime monitoring: one-sided rate-bound checker on timestamped cumulative reads of the scripted client connection (per connection and merged for the total limiter), latency lower bound, stream-prefix oracle; UDP associations; matcher (prefetch under a deadline) behind the throttle; storm rounds released from a spin start line in front of the first Read",
              text="Held on every timed run up to a documented marginal over-grant of the shared limiter under concurrent readers (known finding, < 0.5 %); larger excess is a violation.",
              note="Time zero is span entry + latency (no token can be taken earlier), so observer delay can only hide violations.", ref="3/C17"),
 }
